@@ -348,19 +348,27 @@ def edit_constant(parameterized):
     # from them inside the block (for another instance or a subclass)
     # would stay unlocked after it.
     updated = []
-    for pname, pobj in parameterized.param.objects('existing').items():
-        if pobj.constant:
-            # (an instance's own Parameter, created now if need be)
-            pobj = parameterized.param[pname]
-            pobj.constant = False
-            updated.append(pobj)
     _edit_constant_blocks.append(updated)
     try:
+        for pname, pobj in parameterized.param.objects('existing').items():
+            if pobj.constant:
+                # (an instance's own Parameter, created now if need be)
+                pobj = parameterized.param[pname]
+                updated.append(pobj)
+                pobj.constant = False
         yield
     finally:
         _edit_constant_blocks[:] = [u for u in _edit_constant_blocks if u is not updated]
+        # (the attribute is set before its watchers are told: one of them
+        # raising must not keep the remaining Parameters unlocked)
+        error = None
         for pobj in updated:
-            pobj.constant = True
+            try:
+                pobj.constant = True
+            except BaseException as exc:
+                error = error or exc
+        if error is not None:
+            raise error
 
 
 # The Parameter objects unlocked by each active edit_constant block
